@@ -23,13 +23,27 @@ import (
 	"k8s.io/apimachinery/pkg/types"
 	clientgoscheme "k8s.io/client-go/kubernetes/scheme"
 	toolscache "k8s.io/client-go/tools/cache"
+	ctrlcache "sigs.k8s.io/controller-runtime/pkg/cache"
 	"sigs.k8s.io/controller-runtime/pkg/cache/informertest"
 	"sigs.k8s.io/controller-runtime/pkg/client"
 	"sigs.k8s.io/controller-runtime/pkg/controller/controllertest"
 
 	"github.com/koordinator-sh/koordinator/apis/extension"
 	"github.com/koordinator-sh/koordinator/apis/thirdparty/scheduler-plugins/pkg/apis/scheduling/v1alpha1"
+	"github.com/koordinator-sh/koordinator/pkg/features"
+	utilfeature "github.com/koordinator-sh/koordinator/pkg/util/feature"
+	"github.com/koordinator-sh/koordinator/pkg/util/fieldindex"
 )
+
+// c15TB: the testing.TB the feature-gate helper reports a failed Set to (it only calls Errorf).
+type c15TB struct {
+	testing.TB // nil: the helper calls nothing else
+	h          *vHarness
+}
+
+func (b c15TB) Errorf(format string, a ...interface{}) {
+	b.h.Fail("C15:harness:feature-gate", format, a...)
+}
 
 // C15 harness: one case = one history of create / update / delete admission requests against the
 // REAL quotaTopology (ValidAddQuota / ValidUpdateQuota / ValidDeleteQuota).  After every request the
@@ -277,7 +291,53 @@ type c15Client struct {
 	pods          []c15Pod
 	lists         int
 	fail          bool // every List fails (apiserver error)
+	// round 8: attrs != 0 draws phase x {bound, unbound} of pod i from it (c15PodAttr); 0 = Running on a node.
+	// The property speaks of "a quota with pods": neither attribute may change a verdict.
+	attrs uint64
 }
+
+// c15PodAttr: phase (0 Pending, 1 Running, 2 Succeeded, 3 Failed, 4 Unknown) and bound (spec.nodeName set) of pod i.
+func (c *c15Client) podAttr(i int) (phase int, bound bool) {
+	if c.attrs == 0 {
+		return 1, true
+	}
+	x := (&vRand{s: c.attrs + uint64(i)*0xD1B54A32D192ED03}).next()
+	return int(x % 5), (x>>8)%2 == 0
+}
+
+var c15Phases = [5]corev1.PodPhase{corev1.PodPending, corev1.PodRunning, corev1.PodSucceeded, corev1.PodFailed, corev1.PodUnknown}
+
+func (c *c15Client) attrTokens() string {
+	s := ""
+	for i := range c.pods {
+		ph, b := c.podAttr(i)
+		s += fmt.Sprintf(" %d %d", ph, vB(b))
+	}
+	return s
+}
+
+// c15RealPodIndex: the client.IndexerFunc koord-manager REALLY registers for (corev1.Pod, "label.quotaName"),
+// captured by running pkg/util/fieldindex.RegisterFieldIndexes (cmd/koord-manager/main.go) against a recording
+// cache; the stub client answers field-selector Lists through it (ValidDeleteQuota and hasQuotaBoundedPods find a
+// quota's pods only through that index).  nil = koord-manager registers no such index (the List then fails, as the
+// informer cache's List does for an unknown index).
+type c15RecCache struct {
+	ctrlcache.Cache
+	funcs map[string]client.IndexerFunc
+}
+
+func (c *c15RecCache) IndexField(_ context.Context, obj client.Object, field string, f client.IndexerFunc) error {
+	c.funcs[fmt.Sprintf("%T/%s", obj, field)] = f
+	return nil
+}
+
+var c15RealPodIndex = func() client.IndexerFunc {
+	rec := &c15RecCache{funcs: map[string]client.IndexerFunc{}}
+	if err := fieldindex.RegisterFieldIndexes(rec); err != nil {
+		return nil
+	}
+	return rec.funcs["*v1.Pod/label.quotaName"]
+}()
 
 // c15Env is the part of the environment a request sees; it is written on the op line and decoded by the model.
 func (c *c15Client) envTokens() string {
@@ -310,20 +370,39 @@ func (c *c15Client) List(_ context.Context, list client.ObjectList, opts ...clie
 		if lo.Namespace != "" && p.ns() != lo.Namespace {
 			continue
 		}
+		pod := corev1.Pod{ObjectMeta: metav1.ObjectMeta{Name: fmt.Sprintf("pod%d", i), Namespace: p.ns(), Labels: map[string]string{}}}
+		if p.label >= 0 {
+			pod.Labels[extension.LabelQuotaName] = p.quotaLabel()
+		}
+		ph, bound := c.podAttr(i)
+		pod.Status.Phase = c15Phases[ph]
+		if bound {
+			pod.Spec.NodeName = "node0"
+		}
 		match := true
 		if lo.FieldSelector != nil {
 			for _, rq := range lo.FieldSelector.Requirements() {
-				if rq.Field != "label.quotaName" || rq.Value != p.quotaLabel() {
+				if rq.Field != "label.quotaName" {
+					match = false
+					continue
+				}
+				if c15RealPodIndex == nil {
+					return fmt.Errorf("c15Client: Index with name field:label.quotaName does not exist")
+				}
+				// the informer cache's index lookup: the pod is listed iff the REAL indexer func yields the value
+				hit := false
+				for _, key := range c15RealPodIndex(pod.DeepCopy()) {
+					if key == rq.Value {
+						hit = true
+					}
+				}
+				if !hit {
 					match = false
 				}
 			}
 		}
 		if !match {
 			continue
-		}
-		pod := corev1.Pod{ObjectMeta: metav1.ObjectMeta{Name: fmt.Sprintf("pod%d", i), Namespace: p.ns(), Labels: map[string]string{}}}
-		if p.label >= 0 {
-			pod.Labels[extension.LabelQuotaName] = p.quotaLabel()
 		}
 		pl.Items = append(pl.Items, pod)
 	}
@@ -1292,7 +1371,9 @@ func TestVerifC15(t *testing.T) {
 		"pod environment (incl. failing List) and raw spelling of labels/annotations/nil maps per request; namespace-list edits that keep a namespace ([a,b]->[b,c], reorder, extend, shrink); " +
 		"in 7/8 of the histories the informer event of every admitted request (typed / unstructured / tombstone by value) is delivered to the real handlers right after; " +
 		"round 7: 1 in 4 admitted checked updates that keep the namespaces annotation (re-parentings 5 in 8) are NOT persisted (no informer event; the next request for that quota — drawn with 1/3 while one is pending — carries the " +
-		"API server's stale object as OldObject / delete object, the client editing its stale copy half of the time), children of is-root=true parents aimed at the parent's min; non-trivial = >=3 accepted requests and final depth >=2; distinct by op lines")
+		"API server's stale object as OldObject / delete object, the client editing its stale copy half of the time), children of is-root=true parents aimed at the parent's min; " +
+		"round 8: label.quotaName Lists answered through the REAL indexer func of pkg/util/fieldindex, every pod with a drawn phase (5) x bound/unbound (op line podattrs), " +
+		"feature gate SupportParentQuotaSubmitPod ON in 3/10 of the histories (op line gate); non-trivial = >=3 accepted requests and final depth >=2; distinct by op lines")
 }
 
 // TestVerifC15Deep: the same history generator biased towards deep trees with full parents (min-sum, keys and tree-id
@@ -1317,6 +1398,17 @@ func TestVerifC15Deep(t *testing.T) {
 // c15History runs one history (one case, already begun) against the real topology.
 func c15History(h *vHarness, r *vRand, deep bool) {
 	{
+		// round 8: a side PRNG split off the case PRNG (the main draw sequence, hence every earlier history, is unchanged)
+		// draws (a) the feature gate SupportParentQuotaSubmitPod (alpha, default off; ON in 3/10 of the histories, set
+		// with the repo's feature-gate test helper and restored after the case) and (b) phase x {bound, unbound} of every
+		// pod of the environment.  The anchored quota-admission code reads the gate nowhere (only ValidateAddPod does), so
+		// model and oracle are the same on both sides of it: every WF clause incl. "a quota with children is marked
+		// is-parent" is demanded unconditionally, and an is-parent flip to true with bound pods stays rejected.
+		side := &vRand{s: r.s ^ 0x0C15E8A5C15E8A5D}
+		gateOn := side.Intn(10) < 3
+		h.Op("gate %d", vB(gateOn))
+		h.Tag(fmt.Sprintf("gate:SupportParentQuotaSubmitPod:%d", vB(gateOn)))
+		defer utilfeature.SetFeatureGateDuringTest(c15TB{h: h}, utilfeature.DefaultMutableFeatureGate, features.SupportParentQuotaSubmitPod, gateOn)()
 		g := &c15Gen{r: r, store: map[int]*c15Spec{}, deep: deep}
 		// history-level choices
 		switch r.Intn(4) {
@@ -1443,6 +1535,16 @@ func c15History(h *vHarness, r *vRand, deep bool) {
 				}
 			}
 			_ = boundPods // the model decodes the pod environment itself (hasBoundPods); kept for the tags below
+			cl.attrs = side.next() | 1
+			if len(cl.pods) > 0 {
+				h.Op("podattrs%s", cl.attrTokens()) // (phase, bound) per pod; no input of the model: "a quota with pods"
+			}
+			for i, p := range cl.pods {
+				if p.label == target {
+					ph, b := cl.podAttr(i)
+					h.Tag(fmt.Sprintf("env:%s:label-pod:phase-%d:bound-%d", kind, ph, vB(b)))
+				}
+			}
 			cl.fail = r.Chance(1, 30)
 			if cl.fail {
 				h.Tag("env:list-fails")
